@@ -140,34 +140,80 @@ def to_float_concrete(p, m):
     return ok, 'to_float(%r, rnd=%s) = %r, correctly rounded double is %s' % (x, rnd, r, want)
 
 
+_SPEC = {'zero': FZERO, 'inf': FINF, 'ninf': FNINF, 'nan': FNAN}
+
+
+def _cpart(ob, name, kind, bc, sign):
+    if kind in _SPEC:
+        return _SPEC[kind]
+    lo, hi = (-200, 200) if kind == 'fin' else (1024 - bc - 3, 1024 - bc + 3)       # 'huge': around the overflow threshold
+    return ob.mpf(name, bc, exp=ob.int(name + '_exp', lo, hi), sign=sign)
+
+
+def _comp_good(f, x, kind, b):
+    """component f of the returned complex against the mpf component x"""
+    if kind == 'zero':
+        return isinstance(f, float) and f == 0.0 and math.copysign(1.0, f) == 1.0
+    if kind == 'inf':
+        return isinstance(f, float) and f == float('inf')
+    if kind == 'ninf':
+        return isinstance(f, float) and f == float('-inf')
+    if kind == 'nan':
+        return isinstance(f, float) and f != f
+    neg = zt(x[0]) == B(1)
+    e = zt(x[2])
+    R = ref_round(zt(x[1]), FALSE, 53, 'n', neg, b, b)
+    Rtop = z3.If(z3.UGE(R, B(1 << b)), B(b + 1), B(b))
+    overflow = (e + Rtop) > B(1024)
+    if isinstance(f, SFloat):
+        fm, fe = zt(f.m), zt(f.e)
+        d = fe - e
+        return z3.And(z3.Not(overflow), d >= B(0), d <= B(b + 1), (fm << d) == z3.If(neg, -R, R))
+    if isinstance(f, float) and f == float('inf'):
+        return z3.And(overflow, z3.Not(neg))
+    if isinstance(f, float) and f == float('-inf'):
+        return z3.And(overflow, neg)
+    return False
+
+
 def to_complex(p):
-    """complex(z) / mpc_to_complex: each component converted like float()"""
+    """complex(z) / mpc_to_complex: each component converted like float(), independently of the other: finite components
+    (symbolic), components around the overflow threshold ('huge'), exact zeros and inf/nan components"""
     bc = p['bc']
+    rk, ik = p.get('rkind', 'fin'), p.get('ikind', 'fin')
     ob = Ob(wbump(p, bc + 80), timeout_s=p.get('_t', 60))
-    re = ob.mpf('re', bc, exp=ob.int('re_exp', -200, 200), sign=p.get('rsign', 0))
-    im = ob.mpf('im', 3, exp=ob.int('im_exp', -200, 200), sign=p.get('isign', 1))
+    re = _cpart(ob, 're', rk, bc, p.get('rsign', 0))
+    im = _cpart(ob, 'im', ik, 3, p.get('isign', 1))
     mp = _ctx(53)
     outs = ob.run(mp.mpc.__complex__, [mp.make_mpc((re, im))])
 
-    def comp(f, x, b):
-        if not isinstance(f, SFloat):
-            return False
-        neg = zt(x[0]) == B(1)
-        R = ref_round(zt(x[1]), FALSE, 53, 'n', neg, b, b)
-        fm, fe = zt(f.m), zt(f.e)
-        d = fe - zt(x[2])
-        return z3.And(d >= B(0), d <= B(b + 1), (fm << d) == z3.If(neg, -R, R))
-
     def good(val, st):
-        if not isinstance(val, SComplex):
+        if not isinstance(val, (SComplex, complex)):
             return False
-        return [comp(val.real, re, bc), comp(val.imag, im, 3)]
+        g = [_comp_good(val.real, re, rk, bc), _comp_good(val.imag, im, ik, 3)]
+        return [z3.BoolVal(x) if isinstance(x, bool) else x for x in g]
     return finish(ob, ob.prove(outs, good))
 
 
 def to_complex_concrete(p, m):
     mp = _ctx(53)
-    re, im = mk_tuple(m, 're', p['bc'], sign=p.get('rsign', 0)), mk_tuple(m, 'im', 3, sign=p.get('isign', 1))
+    rk, ik = p.get('rkind', 'fin'), p.get('ikind', 'fin')
+    re = _SPEC[rk] if rk in _SPEC else mk_tuple(m, 're', p['bc'], sign=p.get('rsign', 0))
+    im = _SPEC[ik] if ik in _SPEC else mk_tuple(m, 'im', 3, sign=p.get('isign', 1))
     c = complex(mp.make_mpc((re, im)))
-    ok = Fraction(c.real) == O.round_fraction(O.frac_of(re), 53, 'n') and Fraction(c.imag) == O.round_fraction(O.frac_of(im), 53, 'n')
+
+    def ok1(f, x, kind):
+        if kind == 'zero':
+            return f == 0.0
+        if kind == 'inf':
+            return f == float('inf')
+        if kind == 'ninf':
+            return f == float('-inf')
+        if kind == 'nan':
+            return f != f
+        want = O.round_fraction(O.frac_of(x), 53, 'n')
+        if abs(want) >= Fraction(2) ** 1024:
+            return f == (float('-inf') if want < 0 else float('inf'))
+        return (not math.isinf(f)) and f == f and Fraction(f) == want
+    ok = ok1(c.real, re, rk) and ok1(c.imag, im, ik)
     return ok, 'complex(mpc(%r, %r)) = %r' % (re, im, c)
